@@ -219,8 +219,14 @@ def resize_rules(ck, rules):
                     continue
                 # which case: does the argument involve arithmetic on the old value?
                 old = env.get("_old_val")
-                inner, _ = peel(arg)
+                inner, casts = peel(arg)
                 if isinstance(inner, ast.BinOp):
+                    narrowing = [c for c in casts if c[0] in ("astype", "np.array", "map", "int_array") and c[1] not in (None, "object", "np.object_", "float", "np.float64", "complex")]
+                    if narrowing and israw and "restore_raw" in rules:
+                        bad(rules["restore_raw"], "resize leaves the quantization of the re-scaled codes to set_val (no cast of its own while re-scaling)",
+                            "re-scaled codes cast with %s before they are stored" % (narrowing[0],), ce.stmt,
+                            "a cast to an integer type truncates the bits that are dropped: the configured rounding and the inaccuracy flag never see them")
+                        continue
                     try:
                         t = _T(arg, BOOLS)
                     except NotATerm as e:
@@ -482,8 +488,33 @@ def best_sizes_assembly(ck, rule_asm, rule_cap, rule_search):
                 bad(rule_cap, "the cap is applied before the closing resize", "n_word capped after resize", wst[-1].stmt)
         if is_none or pf.zero_loops:
             continue
-        # ---- assembly
+        # ---- search bounds: both length searches run up to n_word_max - sign, whatever word the caller asked for (the cap is applied afterwards,
+        #      in the assembly); a search cut short at the requested word under-estimates the integer length
         sgn = guard_assignment(pf.guards, rename=IDENT)
+        from ..common import path_literals as _pl
+        for g in pf.guards:
+            if not isinstance(g[3], ast.While):
+                continue
+            lits = []
+            from ..common import _implied_literals
+            _implied_literals(g[0], g[1], lits)
+            for t, pol in lits:
+                if isinstance(t, ast.Compare) and len(t.ops) == 1 and isinstance(t.ops[0], (ast.Lt, ast.LtE)) and pol:
+                    if "n_word" not in src(t.comparators[0]):
+                        continue          # not a length bound (error tolerance etc.)
+                    try:
+                        b = _T(t.comparators[0], BOOLS + ("sign",)).subst(sgn)
+                    except NotATerm:
+                        b = Term.var("<%s>" % src(t.comparators[0])[:60])
+                    sg_atom0 = Term.bvar("self.signed").subst(sgn)
+                    try:
+                        sign_t = _T(pf.env.get("sign", ast.Constant(value=0)), BOOLS + ("sign",)).subst(sgn)
+                    except NotATerm:
+                        sign_t = sg_atom0
+                    if b != nmax - sign_t and b != nmax - sg_atom0:
+                        bad(rule_asm, "the length searches are bounded by n_word_max - sign (not by the requested word)", "search bound %s" % b.show()[:80], g[3],
+                            "with a short requested word the fraction search stops early and the integer length is estimated on a truncated value")
+        # ---- assembly
         gw = [g for g in pf.guards if g[2] is not None and src(g[2]) == "n_word is None" and isinstance(g[3], ast.If)]
         if not gw:
             continue
